@@ -183,3 +183,43 @@ def run_finiall(prog, ctx=None):
     if n < 1:
         raise Broken("FINIALL: no notifying loop found")
     return res
+
+
+def run_defaultset(prog, ctx=None):
+    """DEFAULTSET: where the dispatcher tests the Default flag of the handler's result, every way through the flagged branch
+    stores the dispatcher's default id (`_def`) before the function returns: the default follows the flag for every id,
+    zero (clear) included."""
+    res = Result("DEFAULTSET")
+    for f in sorted(prog.functions.values(), key=lambda f: (f.file, f.line)):
+        if f.nocfg or not f.file.startswith(("mptcore/event/", "mpt++/")):
+            continue
+        for bid, b in f.blocks.items():
+            t = b.term
+            if not (t and isinstance(t.get("cond"), dict) and len(b.succ) == 2 and t.get("cls") == "IfStmt"):
+                continue
+            c = strip(t["cond"], all_casts=True)
+            if not (c.get("k") == "bin" and c.get("op") == "&"):
+                continue
+            names = [n["d"].get("n", "") for n in walk(c) if n.get("k") == "ref" and n["d"].get("dk") in ("enumc", "enumconst")]
+            if not any(n.endswith("Default") for n in names):
+                continue
+            # the function must deal with the dispatcher default at all
+            def_stores = set()
+            for b2, i2, n in f.walk_all():
+                if n.get("k") == "bin" and n.get("op") == "=":
+                    l = strip(n["a"], lvalue_to_rvalue=False)
+                    if l.get("k") == "mem" and l.get("f") == "_def":
+                        def_stores.add(b2.id if hasattr(b2, "id") else b2)
+            if not def_stores or b.succ[0] is None:
+                continue
+            T = b.succ[0]
+            reach = f.reachable_from(T, avoid=def_stores) if T not in def_stores else set()
+            leaks = sorted(x for x in reach if x == f.exit or any(e.get("k") == "ret" for e in f.blocks[x].el))
+            ok = not leaks
+            res.ob("%s:%s" % (f.qn, norm(show(t["cond"], f))[:50]), ok, f, t.get("l", f.line),
+                   "" if ok else "%s: a path through the branch taken when the handler returned the Default flag reaches the return without storing the default id (_def); "
+                                 "the bookkeeping no longer follows the flag on that path" % f.qn)
+            res.count("sites")
+    if not res.counters.get("sites"):
+        raise Broken("DEFAULTSET: no test of the Default flag next to a store of the default id found")
+    return res
